@@ -48,6 +48,11 @@ PartSeq(ts, lo, hi) == FlattenSeq([k \in 1..(hi - lo + 1) |-> PartSeqN(ts, lo + 
 PartSubSeq(ts, lo, hi) == FlattenSeq([k \in 1..(hi - lo + 1) |-> PartSeqN(ts, lo + k - 1, CutsSeq(lo + k - 1), <<S1a, Pa, Pb>>, {"s1"})])
 \* the first two files differ only in letter case (A.yaml sorts before a.yaml)
 PartTwinSeq(ts, lo, hi) == FlattenSeq([k \in 1..(hi - lo + 1) |-> PartSeqN(ts, lo + k - 1, Tail(CutsSeq(lo + k - 1)), <<PA, Pa, Pb>>, {})])
+\* the first file (of parent / of subchart and parent) lives in a directory whose name starts with "_": it is an
+\* ordinary template (only a file whose OWN name starts with "_" is a partial) and nothing of it may be lost
+PartJobsSeq(ts, lo, hi) ==
+  FlattenSeq([k \in 1..(hi - lo + 1) |-> PartSeqN(ts, lo + k - 1, CutsSeq(lo + k - 1), <<PJ, Pa, Pb>>, {})])
+  \o FlattenSeq([k \in 1..(hi - lo + 1) |-> PartSeqN(ts, lo + k - 1, CutsSeq(lo + k - 1), <<S1J, PJ, Pa>>, {"s1"})])
 \* longer sequences in ONE file (no cut)
 OneFileSeq(ts, lo, hi) == FlattenSeq([k \in 1..(hi - lo + 1) |-> PartSeqN(ts, lo + k - 1, <<<<>>>>, <<Pa, Pb, Pc>>, {})])
 
@@ -103,7 +108,7 @@ TwinCases == {TwinCase(tw, no, cl, sn) : tw \in SUBSET {PA, S1A}, no \in SUBSET 
 \* program (values, include / tpl nesting depth 2, Files.Get / Glob, files outside the chart, DNS, state
 \* written by one file and read by another of the same chart or of the parent, mutation of a default list, fail);
 \* the named templates are defined twice (parent and subchart partial)
-ProgsP == {"LIT", "VAL", "INC", "INC2", "TPL", "TPL2", "FGET", "FGLOB", "FOUT", "DNS", "SET", "GET", "GETS", "MUT", "FAIL"}
+ProgsP == {"LIT", "VAL", "INC", "INC2", "TPL", "TPL2", "FGET", "FGLOB", "FOUT", "DNS", "SET", "GET", "GETS", "MUT", "FAIL", "CAPV", "CAPA"}
 \* GETS reads the subchart's state through .Values.s1: only meaningful in a file of the parent
 ProgOK(asg) == \A p \in DOMAIN asg : asg[p] = "GETS" => p \in {Pa, Pb}
 ProgCase(asg, pa, dns) ==
@@ -138,9 +143,9 @@ StrictInputs  == {c \in OrderCases : NPaths(c) <= 4} \cup SchemaCases
 \* C08: all document sequences over kind x class (one flavour per class) in up to three files,
 \* and every flavour incl. blank / comment-only documents for up to two documents
 C08Seq(n, m, one) ==
-  PartSeq(AbsTypesSeq, 1, n) \o PartSubSeq(AbsTypesSeq, 1, m) \o PartTwinSeq(AbsTypesSeq, 2, 3) \o OneFileSeq(AbsTypesSeq, n + 1, one)
+  PartSeq(AbsTypesSeq, 1, n) \o PartSubSeq(AbsTypesSeq, 1, m) \o PartTwinSeq(AbsTypesSeq, 2, 3) \o PartJobsSeq(AbsTypesSeq, 1, 2) \o OneFileSeq(AbsTypesSeq, n + 1, one)
   \o SelectSeq(PartSeq(AllTypesSeq, 1, 2), HasFlavour) \o SetToSeq(LongCases)
-C08MachineSeq(n) == PartSeq(AbsTypesSeq, 1, n) \o PartTwinSeq(AbsTypesSeq, 2, 2) \o SelectSeq(PartSeq(AllTypesSeq, 1, 2), HasFlavour)
+C08MachineSeq(n) == PartSeq(AbsTypesSeq, 1, n) \o PartTwinSeq(AbsTypesSeq, 2, 2) \o PartJobsSeq(AbsTypesSeq, 1, 1) \o SelectSeq(PartSeq(AllTypesSeq, 1, 2), HasFlavour)
 
 (* ----- export ---------------------------------------------------------------- *)
 
